@@ -188,4 +188,22 @@ theorem mpn_powm_correct_upto_cutoff (cutoff numN : Nat) (tab : List Nat) (thr :
 example : (mpnPowmMem 1 (Mpir.Hgcd.bnm1NextSize 128 19 [4, 3, 3, 4, 3, 3, 3, 3, 3, 2, 2, 2, 2, 2, 2, 2, 2, 1, 1])
     (fun n => 6 * n + 220) 232 [5] [1000] [7, 9]) = (toLimbs 2 (5 ^ 1000 % val [7, 9]), true) := by decide +kernel
 
+/-- **mpn_powlo** (mpn/generic/powlo.c) on memory: `rp` (n limbs), the caller's scratch `tp`, the table `pp`
+    of `(n << (windowsize−1)) + n` limbs.  MPIR's mpn_mullow_n sets 2n limbs at its destination
+    (mullow_n.c:25), so every table entry is written together with the n limbs after it — the model stores
+    both halves and checks both ranges.  Preconditions are the C's: `bp` has at least n limbs, `n ≥ 1`,
+    `{ep,en} > 1` in normal form (ASSERT at powlo.c:103), scratch of `3n` limbs (powlo.c:84).  Then every
+    access stays inside `tp` (squares and low products in `tp[0..2n)`, `b^2` kept at `tp[2n..3n)` and never
+    overwritten) and inside `pp` (the high half of the last mullow lands exactly in the n spare limbs), and
+    `rp[0..n)` = `bp[0..n)^e mod B^n`. -/
+theorem mpn_powlo_correct (itch : Nat) (bp ep : List Nat) (n : Nat) (hbp : Limbs bp) (hbl : n ≤ bp.length)
+    (hn : 1 ≤ n) (hep : Norm ep) (hne : ep ≠ []) (h2 : 2 ≤ val ep) (hitch : 3 * n ≤ itch) :
+    (mpnPowloMem itch bp ep n).2 = true ∧
+    (mpnPowloMem itch bp ep n).1 = toLimbs n (val (bp.take n) ^ val ep % B ^ n) :=
+  mpnPowloMem_correct itch bp ep n hbp hbl hn hep hne h2 hitch
+
+-- non-vacuity: 3n limbs are enough, 3n − 1 are not (the copy of b^2 to tp[2n..3n) leaves the area)
+example : mpnPowloMem 6 [3, 4, 5] [77] 2 = (toLimbs 2 (val [3, 4] ^ 77 % B ^ 2), true) ∧
+    (mpnPowloMem 5 [3, 4, 5] [77] 2).2 = false := by decide +kernel
+
 end Mpir.PowmL
